@@ -79,3 +79,22 @@ Qed.
 Print Assumptions C13_cross_translate.
 Print Assumptions C13_cross_exact_max.
 Print Assumptions C13_scaled_region.
+
+(* K3: the 64-bit product kernels are regenerated from /repo's current source on every run
+   (Gen/Kernels_gen.v) and proved equal to the models the theorems above are about; the parallel
+   test of getSegmentIntersectPt is exact within 2^29 *)
+From Coq Require Import QArith.
+From Clip Require Import Model.KernelOps Gen.Kernels_gen Model.KernelProofs.
+Theorem C13_cross_from_source : forall p1 p2 p3,
+  gen_CrossProduct (px p1) (py p1) (px p2) (py p2) (px p3) (py p3) = inject_Z (round53 (wrap64 (cross_exact p1 p2 p3))).
+Proof. intros. rewrite gen_CrossProduct_eq. unfold CrossProduct. rewrite C13_cross_wrap. reflexivity. Qed.
+Theorem C13_dot_from_source : forall p1 p2 p3,
+  gen_dotProduct64 (px p1) (py p1) (px p2) (py p2) (px p3) (py p3) = inject_Z (round53 (dot64 p1 p2 p3)).
+Proof. exact gen_dotProduct64_eq. Qed.
+Theorem C13_intersect_parallel_test_exact : forall a1 b1 a2 b2,
+  coord_ok two29 a1 -> coord_ok two29 b1 -> coord_ok two29 a2 -> coord_ok two29 b2 ->
+  snd (gen_getSegmentIntersectPt (px a1) (py a1) (px b1) (py b1) (px a2) (py a2) (px b2) (py b2))
+  = negb (det_exact a1 b1 a2 b2 =? 0)%Z.
+Proof. exact gen_intersect_flag. Qed.
+Print Assumptions C13_cross_from_source.
+Print Assumptions C13_intersect_parallel_test_exact.
